@@ -69,8 +69,19 @@ func drawSRID(s *core.Source) int {
 	default:
 		// bytes that the scanner's framing detection looks for ('0','1','\\','x', 0, 1) in every position
 		// (also the geometry type codes and the EWKB flag byte: an SRID prefix that looks like a header)
-		pool := []uint32{0x00, 0x01, 0x30, 0x31, 0x5c, 0x78, 0x02, 0x03, 0x04, 0x05, 0x06, 0x07, 0x20, 0x7f}
-		v := pool[s.Intn(14, "b0")] | pool[s.Intn(14, "b1")]<<8 | pool[s.Intn(14, "b2")]<<16 | pool[s.Intn(13, "b3")]<<24
+		pool := []uint32{0x01, 0x30, 0x31, 0x5c, 0x78, 0x02, 0x03, 0x04, 0x05, 0x06, 0x07, 0x20, 0x7f}
+		var v uint32
+		if s.Bool("sparse") {
+			// one or two such bytes, the rest zero: 8192 = 00 20 00 00, 513 = 01 02 00 00, ...
+			v = pool[s.Intn(13, "b")] << (8 * uint(s.Intn(4, "pos")))
+			if s.Bool("two") {
+				v |= pool[s.Intn(13, "b2")] << (8 * uint(s.Intn(4, "pos2")))
+			}
+			v &= 1<<31 - 1
+		} else {
+			full := append([]uint32{0}, pool...)
+			v = full[s.Intn(14, "b0")] | full[s.Intn(14, "b1")]<<8 | full[s.Intn(14, "b2")]<<16 | full[s.Intn(13, "b3")]<<24
+		}
 		if v == 0 {
 			v = 0x3030
 		}
